@@ -5,5 +5,6 @@ CONSTANTS
   MaxHeaders = 1
   Protos = {"HTTP/1.0", "HTTP/1.1", "HTTP/2.0", "HTTP/3.0"}
   LowerBeforeLookup = TRUE
+  GuardOnFirstValue = FALSE
 INVARIANTS DumpRedacts
 CHECK_DEADLOCK FALSE
